@@ -21,6 +21,7 @@ from vsim import engine as E  # noqa: E402
 from vsim.clock import SimClock  # noqa: E402
 from vsim.rng import Rng  # noqa: E402
 from vsim.scratch import Scratch  # noqa: E402
+from vsim.sched import ParallelSeams  # noqa: E402
 
 import clematis.engine.health as health  # noqa: E402
 
@@ -86,6 +87,9 @@ def generate(seed: int, tier: str) -> Dict[str, Any]:
     if r.chance(0.5):
         fams.append("t4")
     raw = E.valid_cfg(rng.stream("config"), fams, p=0.4)
+    if r.chance(0.2):
+        # stage thread pools in both arms: a cache entry must not be aliased/mutated by the parallel merge either
+        raw.setdefault("perf", {}).setdefault("parallel", {}).update({"enabled": True, "t1": True, "t2": r.chance(0.5), "max_workers": r.choice([2, 4])})
     if r.chance(0.5):
         raw.setdefault("t2", {})["owner_scope"] = "agent"
     if r.chance(0.5):
@@ -201,6 +205,10 @@ def _run_arm(program: Dict[str, Any], keep: Optional[Tuple[str, ...]], stats: Op
     with Scratch() as root:
         with E.EngineEnv(root, clock) as ee:
             health.check_and_log = spy
+            par = bool(((program["cfg"].get("perf") or {}).get("parallel") or {}).get("enabled"))
+            seams = ParallelSeams(None) if par else None
+            if seams is not None:
+                seams.__enter__()
             try:
                 arm = _Arm(program["world"], program["world_b"], program["cfg"], ee, keep)
                 for op in program["ops"]:
@@ -231,6 +239,8 @@ def _run_arm(program: Dict[str, Any], keep: Optional[Tuple[str, ...]], stats: Op
                     stats["_any_hit"] = int(turn_hits + t2h + sum(o["t1_hits"] for o in observed) > 0)
             finally:
                 health.check_and_log = orig
+                if seams is not None:
+                    seams.__exit__(None, None, None)
     return observed
 
 
